@@ -419,6 +419,7 @@ type Style struct {
 	Extra      map[*Node]int // extra redundant parenthesis pairs around these nodes
 	WrapAll    int          // redundant pairs around the whole query
 	WrapValue  map[*Node]int // redundant pairs around the value of a KField/KCmp... (field's value)
+	WrapArg    map[*Node]int // redundant pairs around the amount of a ~ / ^ node
 	Tight      bool         // drop optional spaces
 	WS         func() string // whitespace run generator (nil => single space)
 	Lower      func(kw string) string // keyword spelling (nil => upper case)
@@ -542,16 +543,18 @@ func (p *printer) bare(n *Node) string {
 			return "-" + p.sp() + c
 		}
 		return "-" + p.osp() + c
-	case KFuzzy:
-		s := p.child(n, n.Kids[0], 0) + p.osp() + "~"
-		if n.HasArg {
-			s += p.osp() + n.ArgText
+	case KFuzzy, KBoost:
+		sym := "~"
+		if n.Kind == KBoost {
+			sym = "^"
 		}
-		return s
-	case KBoost:
-		s := p.child(n, n.Kids[0], 0) + p.osp() + "^"
+		s := p.child(n, n.Kids[0], 0) + p.osp() + sym
 		if n.HasArg {
-			s += p.osp() + n.ArgText
+			arg := n.ArgText
+			for i := 0; i < p.st.WrapArg[n]; i++ {
+				arg = "(" + p.osp() + arg + p.osp() + ")"
+			}
+			s += p.osp() + arg
 		}
 		return s
 	case KGroup:
